@@ -47,6 +47,13 @@ THEOREMS = [
     "Verif.C07.F9_witness",
     "Verif.C07.tether_maps_chosen_points",
     "Verif.C07.align_then_rotate_order_matters",
+    # deepening round D
+    "Verif.C07.kymo_pixels_refine",
+    "Verif.C07.kymo_stack_ok_iff",
+    "Verif.C07.kymoWindow_eq_pinned",
+    "Verif.C07.F20b_witness",
+    "Verif.C07.kymo_times_spec",
+    "Verif.C07.kymo_times_errors",
 ]
 RULE = (
     "corpus (F2 inputs) + exhaustive small scope on real TIFF stacks of n<=6 frames of 4x5 pixels: every slice with "
@@ -313,7 +320,16 @@ def observe_kymo(spec, stack, kymo):
     shp = chans[0].shape
     vals = ";".join(",".join(str(float(v)) for v in a.ravel()) for a in chans)
     lt = kymo.line_time_seconds
-    return f"kymo {shp[0]}x{shp[1] if len(shp) > 1 else 1} [{vals}] lt={enc_float(lt)} start={int(kymo.start)}"
+    # exposure and line period as the kymograph reports them: stop - start of its first line without / with dead time
+    ex = dead = UNSEEN
+    try:
+        r0 = kymo.line_timestamp_ranges(include_dead_time=False)[0]
+        r1 = kymo.line_timestamp_ranges(include_dead_time=True)[0]
+        ex, dead = str(int(r0[1]) - int(r0[0])), str(int(r1[1]) - int(r1[0]))
+    except (AttributeError, TypeError) as e:
+        if not missing_here(e):
+            raise
+    return f"kymo {shp[0]}x{shp[1] if len(shp) > 1 else 1} [{vals}] lt={enc_float(lt)} start={int(kymo.start)} ex={ex} line={dead}"
 
 
 def impl_prog(spec, prog):
@@ -595,6 +611,8 @@ def ops(case):
     if k == "beads":
         return [land_line(case["spec"], case["prog"])]
     if k == "prog":
+        if is_kymo(case["prog"]):
+            return [kymo_line(case["spec"], case["prog"])]
         return [run_line(case["spec"], case["prog"])]
     if k == "commute":
         return [run_line(case["spec"], case["prog"]), run_line(case["spec"], case["prog2"])]
@@ -609,24 +627,16 @@ def ops(case):
     raise ValueError(k)
 
 
+def is_kymo(prog):
+    return bool(prog) and prog[-1][0] == "k"
+
+
 def tether_close(a, b):
     if a == "none" or b == "none":
         return a == b
     xa = [dec_float(t) for t in a.split(",")]
     xb = [dec_float(t) for t in b.split(",")]
     return len(xa) == len(xb) and all(abs(p - q) <= 1e-9 * (1 + abs(p) + abs(q)) for p, q in zip(xa, xb))
-
-
-def expected_kymo(spec, frames, roi, w):
-    """kymograph channels the model's answer (frames + ROI of the stack behind to_kymo) stands for"""
-    full = np.asarray(bt.full_array(spec), dtype=float)
-    x0, x1, y0, y1 = roi
-    sub = full[frames][:, y0:y1, x0:x1]
-    sub = sub.sum(axis=1)  # time, x(, c)
-    sub = np.swapaxes(sub, 0, 1)
-    if sub.ndim == 2:
-        sub = np.repeat(sub[:, :, np.newaxis], 3, axis=2)
-    return [sub[:, :, c] for c in range(3)]
 
 
 def parse_kymo(ans):
@@ -636,6 +646,32 @@ def parse_kymo(ans):
     lt = dec_float(toks[3][3:])
     start = int(toks[4][6:])
     return chans, lt, start
+
+
+def parse_kymo_times(ans):
+    """(exposure ns | None, line period ns | None) as the kymograph's own line ranges report them"""
+    toks = ans.split(" ")
+    out = []
+    for t, key in zip(toks[5:7], ("ex=", "line=")):
+        v = t[len(key):]
+        out.append(None if v == UNSEEN else int(v))
+    return out if len(out) == 2 else [None, None]
+
+
+def kymo_line(spec, prog):
+    """c07.kymo: the program as for c07.run; the model computes the kymograph's pixel values itself from the harness'
+    pixel encoding (builders_tiff.pixel_value), one image per stored sample"""
+    return f"c07.kymo {bt.n_samples(spec)} " + run_line(spec, prog)[len("c07.run "):]
+
+
+def sample_channels(spec):
+    """which of the kymograph's (red, green, blue) each stored sample shows up in; None = the channel must be empty"""
+    if spec["colour"] == "grey":
+        return [0, 0, 0]
+    if spec["colour"] == "rgb":
+        return [0, 1, 2]
+    order = [i for i, c in enumerate(("Red", "Green", "Blue")) if c in spec["two_channels"]]
+    return [order.index(i) if i in order else None for i in range(3)]
 
 
 BEAD_TOL = 0.25  # pixels: centroid of an interpolated spot vs. computed position (measured on /repo: < 0.02 over 80000 spots)
@@ -719,27 +755,41 @@ def agree_beads(case, ia, ma):
     return True
 
 
+def agree_kymo(case, ia, ma):
+    """model: `kymo <line time ns> <exposure ns> <start> <image[x][t] per stored sample>`; the pixel values are the model's
+    own (window, reduction over the half window, swapped axes), compared exactly"""
+    if not ma.startswith("kymo "):
+        return ia == ma
+    if not ia.startswith("kymo "):
+        return False
+    chans, lt, start = parse_kymo(ia)
+    ex, line = parse_kymo_times(ia)
+    mt = ma.split(" ")
+    m_lt, m_ex, m_start = int(mt[1]), int(mt[2]), int(mt[3])
+    imgs = []
+    for part in mt[4].split("|"):
+        if not (part.startswith("[") and part.endswith("]")):
+            return False
+        rows = [[int(v) for v in r.split(",")] if r else [] for r in part[1:-1].split(";")]
+        imgs.append(np.array(rows, dtype=float))
+    for c, k in enumerate(sample_channels(case["spec"])):
+        exp = np.zeros_like(imgs[0]) if k is None else imgs[k]
+        if exp.shape != chans[c].shape or not np.array_equal(exp, chans[c]):
+            return False
+    if start != m_start or abs(lt - m_lt * 1e-9) > 1e-12 * abs(lt):
+        return False
+    return (ex is None or ex == m_ex) and (line is None or line == m_lt)
+
+
 def agree(case, i, ia, ma):
     if case["op"] == "beads":
         return agree_beads(case, ia, ma)
     if case["op"] in ("prog", "commute"):
+        if case["op"] == "prog" and is_kymo(case["prog"]):
+            return agree_kymo(case, ia, ma)
         if not ma.startswith("ok "):
             return ia == ma
         mt = ma.split(" ")
-        prog = case["prog"] if i == 0 else case["prog2"]
-        if prog and prog[-1][0] == "k":
-            if not ia.startswith("kymo "):
-                return False
-            chans, lt, start = parse_kymo(ia)
-            frames = json.loads(mt[1])
-            roi = [int(x) for x in mt[2].split(",")]
-            exp = expected_kymo(case["spec"], frames, roi, prog[-1][1])
-            if any(e.shape != c.shape or not np.array_equal(e, c) for e, c in zip(exp, chans)):
-                return False
-            starts = [int(x.split(":")[0]) for x in mt[3][1:-1].split(",")]
-            if start != starts[0]:
-                return False
-            return len(starts) < 2 or abs(lt - (starts[1] - starts[0]) * 1e-9) <= 1e-12 * abs(lt)
         if not ia.startswith("ok "):
             return False
         it = ia.split(" ")
@@ -922,16 +972,27 @@ def oracle_kymo(spec, prog, pages, rows, cols, geo, ans):
     the frame timestamps.  Only for horizontal left-to-right tethers (identity warp)."""
     w = prog[-1][1]
     table = bt.page_table(spec)
+    if len(pages) < 2:
+        return None  # a single frame: outside (undocumented IndexError before anything else is looked at)
     if not geo["defined"]:
         return None if ans == "ValueError" else f"kymo: no tether defined, expected ValueError, got {ans[:100]}"
     if not geo.get("flat"):
         return None  # rotated tether: outside
+    if len(pages) >= 2:
+        starts = [table[p][0] for p in pages]
+        expos = [table[p][2] - table[p][0] for p in pages]
+        if len({b - a for a, b in zip(starts, starts[1:])}) > 1 or len(set(expos)) > 1:
+            return None if ans == "ValueError" else f"kymo-timing: frame rate or exposure not constant, expected ValueError, got {ans[:100]}"
     mx, my = geo["mid"]
     xa, xb = mx - geo["len"] / 2, mx + geo["len"] / 2
     row = math.floor(my)
     if w < 0 or row - w < 0 or row + w + 1 > len(rows):
         return None if ans == "ValueError" else f"kymo-window: half window {w} leaves the image, expected ValueError, got {ans[:100]}"
     lo, hi = math.floor(xa), math.floor(xb) + 1
+    if hi <= 0:
+        # no pixel of the tether row lies inside the (cropped) image: nothing "along the tether" can be returned
+        return None if ans == "ValueError" else (
+            f"kymo-outside: the tether ({xa}..{xb}) lies entirely left of the cropped image, expected ValueError, got {ans[:100]}")
     outside_left = lo < 0
     if lo < 0:
         lo = 0  # the part of the tether row that lies inside the (cropped) image
@@ -957,6 +1018,12 @@ def oracle_kymo(spec, prog, pages, rows, cols, geo, ans):
     lt_exp = (table[pages[1]][0] - table[pages[0]][0]) * 1e-9
     if abs(lt - lt_exp) > 1e-12 * lt_exp:
         return f"kymo-line-time: {lt} vs {lt_exp}"
+    ex, line = parse_kymo_times(ans)
+    ex_exp = table[pages[0]][2] - table[pages[0]][0]
+    if ex is not None and ex != ex_exp:
+        return f"kymo-exposure: lines are exposed for {ex} ns, the frames for {ex_exp} ns"
+    if line is not None and line != table[pages[1]][0] - table[pages[0]][0]:
+        return f"kymo-line-time: line ranges with dead time are {line} ns long, the frames start {table[pages[1]][0] - table[pages[0]][0]} ns apart"
     return None
 
 
@@ -1102,11 +1169,13 @@ def tags(case, r):
         t["crop_or_tether_after_stepped_slice"] = crop_after_step
         t["kinds"] = "".join(kinds)
         t["kymo_tether_left_end_outside_image"] = kymo_left_outside(case)
+        t["kymo_tether_entirely_left_of_image"] = kymo_left_outside(case, whole=True)
     return t
 
 
-def kymo_left_outside(case):
-    """to_kymo on a horizontal tether whose left end has a negative x in the current (cropped) image"""
+def kymo_left_outside(case, whole=False):
+    """to_kymo on a horizontal tether whose left end (whole=True: whose right end, too) has a negative x in the current
+    (cropped) image"""
     prog = case["prog"]
     if not prog or prog[-1][0] != "k":
         return False
@@ -1114,7 +1183,11 @@ def kymo_left_outside(case):
         _, _, _, geo = simulate(case["spec"], prog[:-1])
     except Expect:
         return False
-    return bool(geo["defined"] and geo.get("flat") and math.floor(geo["mid"][0] - geo["len"] / 2) < 0)
+    if not (geo["defined"] and geo.get("flat")):
+        return False
+    if whole:
+        return math.floor(geo["mid"][0] + geo["len"] / 2) + 1 <= 0
+    return math.floor(geo["mid"][0] - geo["len"] / 2) < 0
 
 
 def shrink(case):
@@ -1617,6 +1690,36 @@ def cases(tier, rng):
         crop = ["c", *rnd_range(sub, w, 0.35), *rnd_range(sub, h, 0.35)]
         yield {"stream": "commute", "op": "commute", "spec": spec, "prog": pre + [crop, sel], "prog2": pre + [sel, crop], "subseed": i}
 
+    # ---- to_kymo, exhaustive small scope: 3 frames of 4x5 pixels, every integer tether row / pair of end columns, every
+    # half window in -1..2, a crop cutting 0..4 columns off the left AFTER the tether (left end outside: F20; both ends
+    # outside: F20b), a stepped frame selection before; stacks whose timing must be refused
+    kspec = small_spec(3)
+    for x1 in range(0, 5):
+        for x2 in range(x1 + 1, 5):
+            for y in range(0, 4):
+                for hw in (-1, 0, 1, 2):
+                    for cut in (None, 1, 2, 3, 4):
+                        c = cut or 0
+                        if min(x2 - c + 1, 5 - c) - max(x1 - c, 0) == 1:
+                            continue  # a 1-pixel kymograph: outside (AxisError of numpy's squeeze)
+                        prog = [["T", float(x1), float(y), float(x2), float(y)]]
+                        if cut is not None:
+                            prog.append(["c", cut, None, None, None])
+                        yield prog_case("kymo-exhaustive", kspec, prog + [["k", hw]])
+    for spec in (
+        bt.make_spec(files=(6,), exposure=[10_000_000, 20_000_000, 30_000_000, 40_000_000, 50_000_000, 60_000_000], **SMALL),
+        bt.make_spec(files=(6,), exposure=[10_000_000, 10_000_000, 10_000_000, 10_000_000, 30_000_000, 10_000_000], **SMALL),
+        bt.make_spec(files=(2, 3, 1), gap=50_000_000, **SMALL),
+        bt.make_spec(files=(6,), colour="rgb", **SMALL),
+        bt.make_spec(files=(6,), colour="two", **SMALL),
+        bt.make_spec(files=(6,), exposure=None, frame_len=80_000_000, **SMALL),
+    ):
+        for pre in ([], [["s", None, 4, None]], [["s", None, None, 2]], [["s", 1, 3, None]], [["s", 2, None, 3]], [["i", 1]],
+                    [["c", 1, None, 1, None]]):
+            for hw in (0, 1):
+                yield prog_case("kymo-exhaustive", spec, pre + [["T", 1.0, 1.0, 3.0, 1.0], ["k", hw]])
+            yield prog_case("kymo-exhaustive", spec, pre + [["k", 0]])
+
     # ---- horizontal tethers and kymographs
     K = 200 if quick else 2000
     r = rng.fork("c07-kymo")
@@ -1670,7 +1773,10 @@ def cases(tier, rng):
         x2 = sub.randint(w - 2, w - 1)
         y = sub.randint(0, h - 1)
         cut = sub.randint(x1 + 1, x2 - 2)
-        prog = [["T", float(x1), float(y), float(x2), float(y)], ["c", cut, None, None, None], ["k", 0]]
+        if sub.chance(0.15):  # both ends cut off (F20b)
+            x2 = sub.randint(x1 + 1, w - 4)
+            cut = sub.randint(x2 + 1, w - 2)
+        prog = [["T", float(x1), float(y), float(x2), float(y)], ["c", cut, None, None, None], ["k", sub.choice([0, 0, 1])]]
         yield prog_case("kymo-outside", spec, prog, subseed=i)
 
 
